@@ -26,6 +26,8 @@
 //	push <nC> <nT> <chunkseed>       the same writes, but the op returns as soon as the writes have returned:
 //	                                 the bytes are still on their way (socket buffers, the proxy) when the
 //	                                 next op - typically a close - is executed
+//	pause <ms>                       nobody writes for <ms> (up to 20 s): a tunnel has no deadline of its own short of
+//	                                 the proxy's timeout, so whatever follows must behave as if there had been no pause
 //	rd <c|t> <eager|slow>            how that end's application reads from now on (slow: 8 KiB, then 1 ms pause)
 //	close <c|t> <half|full|abort>    that end finishes sending (CloseWrite), closes, or closes abortively
 //	                                 (SO_LINGER 0: the proxy sees ECONNRESET instead of EOF)
@@ -982,6 +984,25 @@ func (e *ex) do(op string) core.Result {
 		}
 		return res
 
+	case "pause":
+		if !e.opened || len(f) != 2 || atoi(f[1]) < 1 || atoi(f[1]) > 20000 {
+			return core.Result{Impl: "bad-op"}
+		}
+		if time.Since(e.openedAt)+time.Duration(atoi(f[1]))*time.Millisecond > e.timeout-5*time.Second {
+			// would run into the proxy's own timeout (the open finding, op outlive): not this op's subject
+			return core.Result{Impl: "bad-op", SkipModel: true}
+		}
+		time.Sleep(time.Duration(atoi(f[1])) * time.Millisecond)
+		switch ms := atoi(f[1]); {
+		case ms >= 11000:
+			core.Count("pause:>=11s")
+		case ms >= 1000:
+			core.Count("pause:1-11s")
+		default:
+			core.Count("pause:<1s")
+		}
+		return core.Result{Impl: "paused"}
+
 	case "rd":
 		if !e.opened || len(f) != 3 || (f[1] != "c" && f[1] != "t") || (f[2] != "eager" && f[2] != "slow") {
 			return core.Result{Impl: "bad-op"}
@@ -1327,9 +1348,19 @@ func genCase(r *core.Rand, tier string, route, lst, tgt string, early, banner in
 	} else {
 		maybeSlow(8)
 	}
+	pause := func() {
+		// idle periods between writes: short ones often, seconds-long ones in thorough
+		if tier == "thorough" && r.Chance(1, 300) {
+			ops = append(ops, fmt.Sprintf("pause %d", r.Range(1000, 4000)))
+		} else if r.Chance(1, 20) {
+			ops = append(ops, fmt.Sprintf("pause %d", r.Range(5, 120)))
+		}
+	}
 	for i, n := 0, r.Range(0, 3); i < n; i++ {
+		pause()
 		ops = append(ops, traffic(r, tier, "", false, false))
 	}
+	pause()
 	first, second := "c", "t"
 	if r.Bool() {
 		first, second = "t", "c"
@@ -1461,6 +1492,33 @@ func (P) Gen(r *core.Rand, tier string, emit0 func(ops []string)) {
 				}
 			}
 		}
+	}
+	// tunnel lifetime: an idle period longer than any plausible handshake/dial deadline (10 s is a common
+	// one), then traffic in both directions, a half-close, more traffic. ~12 s of wall clock per case: one in
+	// quick (through a downstream martian: both connect paths are involved), every route and listener in thorough.
+	longPause := func(ro, l, tg string) {
+		rr := r.Fork()
+		ops := []string{fmt.Sprintf("open %s %s %s %d 0 %d %d", ro, l, tg, earlySizes[rr.Intn(len(earlySizes))], rr.Intn(256), rr.Intn(256))}
+		if rr.Bool() {
+			ops = append(ops, traffic(rr, tier, "", false, false))
+		}
+		ops = append(ops, fmt.Sprintf("pause %d", rr.Range(11500, 13000)))
+		ops = append(ops, fmt.Sprintf("send %d %d %d", rr.Range(1, 70000), rr.Range(1, 70000), rr.Intn(1<<30)))
+		first, second := "c", "t"
+		if rr.Bool() {
+			first, second = "t", "c"
+		}
+		ops = append(ops, "close "+first+" half", traffic(rr, tier, second, false, false), "close "+second+" "+rr.Pick("half", "full"), "end")
+		emit(ops)
+	}
+	if tier == "thorough" {
+		for _, ro := range routes {
+			for _, l := range lsts {
+				longPause(ro, l, r.Pick("tcp", "plain"))
+			}
+		}
+	} else {
+		longPause("via", lsts[r.Intn(3)], r.Pick("tcp", "plain"))
 	}
 	n, nIn := 220, 4
 	if tier == "thorough" {
